@@ -180,9 +180,9 @@ func execJob(b *batch, j job) (r result) {
 		if j.Check && r.ok() {
 			r.Invalid, r.InvalidMsg = validity(e, d, recv, b.Tripwire)
 		}
-		if r.Alloc > 4<<20 {
-			// leave no garbage behind a job that allocated megabytes: whether a later allocation fits under the
-			// helper's address-space limit must not depend on when the collector last ran
+		if r.Alloc > 32<<20 {
+			// leave no garbage behind a job that allocated tens of megabytes: whether a later allocation fits under
+			// the helper's address-space limit must not depend on when the collector last ran
 			recv = nil
 			runtime.GC()
 			debug.FreeOSMemory()
@@ -237,13 +237,27 @@ func traceDecode(d decoder, recv any, data []byte, limit uint64, record bool) (s
 // ---------------------------------------------------------------------------------------------
 // helper process side
 
+// vmSize: current virtual size of this process in bytes (2 GiB if /proc is unreadable).
+func vmSize() uint64 {
+	b, err := os.ReadFile("/proc/self/statm")
+	var pages uint64
+	if err != nil {
+		return 2 << 30
+	}
+	if _, err := fmt.Sscan(string(b), &pages); err != nil || pages == 0 {
+		return 2 << 30
+	}
+	return pages * uint64(os.Getpagesize())
+}
+
 func childMain() {
 	debug.SetMaxStack(8 << 20) // a runaway recursion ends in milliseconds
-	// A mis-framed stream makes decoders allocate whatever a garbage length says. Below the limit that is a
-	// slow page-faulting multi-GiB allocation, above it an immediate "fatal error: out of memory": keep the
-	// limit low so that the outcome is quick either way. (A go1.23 process reserves ~1.3 GiB of address space
-	// before it has allocated anything; RLIMIT_AS counts that.)
-	lim := uint64(2304) << 20
+	// A mis-framed stream makes decoders allocate whatever a garbage length says. Below the address-space limit
+	// that is a slow allocation (zeroing and faulting in hundreds of MiB), above it an immediate "fatal error: out
+	// of memory"; both are the same event for the oracle (an allocation request far beyond the input size), so the
+	// limit is set just above what the largest deliberate allocation needs: current size (a go1.23 process reserves
+	// ~1.3 GiB of address space before it has allocated anything; RLIMIT_AS counts that) + 256 MiB.
+	lim := vmSize() + 256<<20
 	if v := os.Getenv("C08_CHILD_MEM_MB"); v != "" {
 		var mb uint64
 		fmt.Sscan(v, &mb)
